@@ -14,6 +14,11 @@ const stuffedKey = "STUFFEDPLAINTEXT"
 func genC11(r *Rand, tier string) *Case {
 	canary := fmt.Sprintf("CANARY%08x", uint32(r.U64()))
 	c := &Case{Server: ServerCfg{Limit: r.PickInt(1000, 4096, 4096, 65536), TLS: r.Pick("certs", "certs", "certs", "empty", "")}, Programs: map[string]*Program{}}
+	if c.Server.TLS != "" && r.Chance(1, 3) {
+		// the configuration reaches the server through the exported field, or its
+		// certificate is added to the configured *tls.Config after NewServer
+		c.Server.TLSVia = r.Pick("field", "late-cert")
+	}
 	if r.Chance(1, 5) {
 		c.Server.Auth = "cleartext"
 	}
@@ -76,6 +81,25 @@ func genC11(r *Rand, tier string) *Case {
 		tc.MaxVer = 0x0303 // TLS 1.2
 	case 1:
 		tc.MinVer = 0x0304 // TLS 1.3
+	}
+	if r.Chance(1, 12) {
+		// the server is closed gracefully while a command of the TLS session is
+		// running: the session must fare exactly like its plaintext equivalent
+		// under the same Close (the running command still delivers its reply)
+		c.Programs = map[string]*Program{"h": {Stmts: []*StmtProg{{Cols: []ColSpec{{Name: "a", OID: pgwire.OIDText}},
+			Ops: []Op{{K: "yield"}, {K: "row", Row: []Val{{G: "string", S: "r1"}}}, {K: "yield"}, {K: "row", Row: []Val{{G: "string", S: "r2"}}}, {K: "complete", Tag: "SELECT 2 " + canary}}}}}}
+		c.Server.MW, c.Server.Auth, c.Server.Validator = nil, "", nil
+		cc.Steps = []Step{{Msgs: []pgwire.FMsg{startupMsg("u", "d")}}, {Msgs: []pgwire.FMsg{{K: "Q", S1: "h " + canary}}}}
+		cc.Cuts = nil
+		cc.NoEOF = true
+		tc.StayOpen = true
+		cc.TLS = tc
+		c.Variant = "tls-close-during-command"
+		// Close begins once the statement callback runs, and the handler does
+		// not get past its first yield before Close has signalled the shutdown
+		c.Sched = &SchedCase{Strategy: r.Pick("uniform", "pct"), Depth: 1, MaxSteps: 400000, Closers: []Closer{{Calls: 1}},
+			Holds: []Hold{{Task: 2, Point: "closer.start", Until: 1, UntilPoint: "cb.stmt"}, {Task: 1, Point: "op.yield", Until: 2, UntilPoint: "close.signalled"}}}
+		return c
 	}
 	c.Variant = "tls-session"
 	switch r.Intn(10) {
@@ -213,10 +237,14 @@ func checkC11(x *Exec, c *Case) ([]Violation, bool) {
 	}
 	// reference: the same session in plaintext on an identically configured server
 	ref := c.Clone()
-	ref.Sched = nil
 	ref.Server.TLS = ""
 	ref.Conns[0].TLS = nil
 	ref.Conns[0].Cuts = nil
+	var refSched *SchedCase
+	if c.Variant == "tls-close-during-command" {
+		refSched = ref.Sched
+	}
+	ref.Sched = nil
 	rr := x.Run(ref)
 	rcs := rr.Conns[0]
 	refT := ParseOut(rcs)
@@ -257,6 +285,29 @@ func checkC11(x *Exec, c *Case) ([]Violation, bool) {
 	}
 	if bytes.Contains(cs.Plain, []byte("STUFFED RAN")) {
 		add("stuffed-plaintext-executed", "the reply to the stuffed plaintext query was delivered inside TLS")
+	}
+	if c.Variant == "tls-close-during-command" {
+		// the plaintext equivalent under the same Close: same closer, same hold
+		pe := ref.Clone()
+		var sc SchedCase
+		reencode(refSched, &sc)
+		sc.Schedule = nil
+		pe.Sched = &sc
+		pr := x.Run(pe)
+		pcs := pr.Conns[0]
+		if !handshakeOK || r.HoldsForced > 0 || pr.HoldsForced > 0 || pr.Outcome != RunIdle {
+			x.Probe(fmt.Sprintf("close_during_tls_inconclusive_hs=%v_forced=%d/%d_outcome=%d/%d", handshakeOK, r.HoldsForced, pr.HoldsForced, r.Outcome, pr.Outcome))
+			return viol, false
+		}
+		x.Probe("close_during_tls_command")
+		msgs, _ := pgwire.ParseStream(cs.Plain)
+		if Canonical(msgs) != Canonical(ParseOut(pcs).Msgs) {
+			add("tls-differs-from-plaintext-under-close", fmt.Sprintf("the server was closed while a command of the session was running: inside TLS the client received %q, the plaintext equivalent under the same Close received %q (client events %v)", pgwire.Kinds(msgs), pgwire.Kinds(ParseOut(pcs).Msgs), cs.ClientEvents))
+		}
+		if CallbackTrace(cs) != CallbackTrace(pcs) {
+			add("tls-callbacks-differ", fmt.Sprintf("callback trace inside TLS differs from plaintext under the same Close:\n  tls:   %s\n  plain: %s", trunc(strings.ReplaceAll(CallbackTrace(cs), "\n", "; "), 200), trunc(strings.ReplaceAll(CallbackTrace(pcs), "\n", "; "), 200)))
+		}
+		return viol, true
 	}
 	// liveness
 	if r.Outcome == RunBudget {
@@ -313,7 +364,7 @@ func checkC11(x *Exec, c *Case) ([]Violation, bool) {
 func init() {
 	register(&Prop{
 		ID: "C11", Level: "exploration", QuickS: 30, ThoroughS: 480,
-		Rule: "seeded TLS scenarios: server configured without TLSConfig / with an empty TLSConfig / with a certificate; client behaviours: SSLRequest then a real crypto/tls handshake (TLS 1.2 or 1.3) then a generated session (simple and extended queries, failing handlers, Terminate) inside TLS; SSLRequest with a plaintext startup+Query stuffed behind it in the same or in the next segment; SSLRequest twice; a second SSLRequest inside TLS; CancelRequest after the upgrade; peer vanishing after 1-60 handshake bytes; against the certificate-less configs SSLRequest -> 'N' -> fresh plaintext startup, SSLRequest twice, or CancelRequest. The TLS client is a real goroutine and, like the server goroutine, a task of the seeded scheduler; both byte directions are tapped below TLS. Oracle: the answer is exactly one byte ('S' iff certificates), everything the server writes afterwards parses as TLS records and neither tapped direction contains the per-run canary carried by every query text and command tag, the decrypted stream and the callback trace equal those of the same session run in plaintext on an identically configured server, stuffed plaintext never reaches a callback, cancel/odd negotiations get no reply and no callback and the connection is closed, the run terminates; every case is non-trivial; distinct = distinct case content hashes",
+		Rule: "seeded TLS scenarios: server configured without TLSConfig / with an empty TLSConfig / with a certificate; client behaviours: SSLRequest then a real crypto/tls handshake (TLS 1.2 or 1.3) then a generated session (simple and extended queries, failing handlers, Terminate) inside TLS; SSLRequest with a plaintext startup+Query stuffed behind it in the same or in the next segment; SSLRequest twice; a second SSLRequest inside TLS; CancelRequest after the upgrade; peer vanishing after 1-60 handshake bytes; against the certificate-less configs SSLRequest -> 'N' -> fresh plaintext startup, SSLRequest twice, or CancelRequest. The TLS client is a real goroutine and, like the server goroutine, a task of the seeded scheduler; both byte directions are tapped below TLS. Oracle: the answer is exactly one byte ('S' iff certificates), everything the server writes afterwards parses as TLS records and neither tapped direction contains the per-run canary carried by every query text and command tag, the decrypted stream and the callback trace equal those of the same session run in plaintext on an identically configured server, stuffed plaintext never reaches a callback, cancel/odd negotiations get no reply and no callback and the connection is closed, the run terminates; every case is non-trivial; distinct = distinct case content hashes; configuration routes (TLSConfig option, exported field assigned after NewServer, certificate added afterwards); clients that let 50 ms - 1 h of simulated time pass between steps (the transport honours deadlines against the fake clock); variant tls-close-during-command: Server.Close pinned inside a running command of the TLS session, compared with the plaintext equivalent under the same Close",
 		Components: []string{
 			"real: Handshake/potentialConnUpgrade/sslUnsupported, crypto/tls server and client (deterministic Rand and Time), the whole serving path on top of the tls.Conn",
 			"stub: raw duplex connection (simulated, tapped, every Read/Write of either party a schedule point), certificate (ed25519, generated in-process from a fixed seed), handler programs",
